@@ -230,7 +230,11 @@ def _deep(ctx: Ctx, item):
     first = None
     for i in range(n):
         src = 5 if i % 3 == 0 else 7
-        r = dec.decode_tcp(pk[src])
+        try:
+            r = dec.decode_tcp(pk[src])
+        except Exception as e:
+            ctx.report(f"C11|deep|decoder-error|{mode}", f"frame {i + 3} of the decoder's life: {type(e).__name__}: {e}", {"deep": n, "mode": mode})
+            break
         if src == 5:
             if r is not None:
                 leak += 1
@@ -274,7 +278,11 @@ def _reclaims(ctx: Ctx, item=None):
                 pass
             if i % 5 == 0:
                 gc.collect()
-            r = traffic.feed(dec, data)
+            try:
+                r = traffic.feed(dec, data)
+            except Exception as e:
+                ctx.report("C11|reclaims|decoder-error", f"{type(e).__name__}: {e}", {"reclaims": True})
+                break
             n += 1
             if (r is not None) != allowed[mfg]:
                 wrong.append((i, mfg, r is not None))
